@@ -665,7 +665,7 @@ def generate(rng, tier):
         k = len(doc.pages)
         sel = list(range(k)) if i % 3 else [rng.randrange(k) for _ in range(rng.randrange(1, 4))]
         hk = rng.choice(["none", "none", "render", "render-all", "ops", "decode-all", "fonts", "images"])
-        yield page_case(rng, doc, sel, tags=["form-pattern"], model=False, jopts=PATTERN_JOPTS, hist=rnd_page_history(rng, doc, sel, hk))
+        yield page_case(rng, doc, sel, tags=["form-pattern"], model=False, hist=rnd_page_history(rng, doc, sel, hk))
 
 
     # marked content: BMC / MP, BDC / DP with an inline property list, with references in it (to one object, shared between
@@ -729,12 +729,6 @@ def generate(rng, tier):
         nbytes = rng.choice([rng.randrange(1, 16), rng.randrange(17, 32), 5])
         sel = [pi] if i % 2 else list(range(len(doc.pages)))
         yield unreadable_case(rng, doc, sel, num, nbytes)
-
-
-# The typed PatternDict has no field for /Type and /PatternType and no catch-all: the copy of a tiling pattern lacks both
-# (a defect of the typed writer, C15's subject; /PatternType is required by Table 75).  The cases about patterns are
-# narrowed to everything else — operation sequence, the other entries, the resources used — by naming the two keys here.
-PATTERN_JOPTS = {"pattern_lost_ok": ("Type", "PatternType")}
 
 
 def always(case, r):
